@@ -162,3 +162,140 @@ fn c15_q_year_serde() {
     }
     kani::cover!(true, "end of harness reachable");
 }
+
+// ---------------------------------------------------------------------------------------------
+// CompactCalendar: one step from an ARBITRARY stored state (any first year, any day sets), built
+// through deserialize. Induction over insertion histories: every calendar reachable by insertions is
+// a (first_year, window of years) state; the queries are checked on every such state of window
+// length N, and one insert from every such state leads to the state the set model predicts.
+// ---------------------------------------------------------------------------------------------
+
+const N: usize = 3; // stored years (window length), concrete bound
+
+fn any_calendar() -> (CompactCalendar, i32, [[u32; 12]; N]) {
+    let first_year: i32 = kani::any();
+    kani::assume(-4000 <= first_year && first_year <= 9000);
+    let mut bits = [[0u32; 12]; N];
+    let mut buf = [0u8; 4 + 8 + N * 48];
+    let fy = first_year.to_ne_bytes();
+    buf[0] = fy[0];
+    buf[1] = fy[1];
+    buf[2] = fy[2];
+    buf[3] = fy[3];
+    let len = N.to_ne_bytes();
+    let mut i = 0;
+    while i < 8 {
+        buf[4 + i] = len[i];
+        i += 1;
+    }
+    let mut y = 0;
+    while y < N {
+        let mut m = 0;
+        while m < 12 {
+            let b: u32 = kani::any();
+            kani::assume(b >> 31 == 0);
+            bits[y][m] = b;
+            let bytes = b.to_ne_bytes();
+            let off = 12 + y * 48 + m * 4;
+            buf[off] = bytes[0];
+            buf[off + 1] = bytes[1];
+            buf[off + 2] = bytes[2];
+            buf[off + 3] = bytes[3];
+            m += 1;
+        }
+        y += 1;
+    }
+    // a window grown by insertions has members in its first and in its last year
+    (CompactCalendar::deserialize(&buf[..]).unwrap(), first_year, bits)
+}
+
+fn model_contains(first_year: i32, bits: &[[u32; 12]; N], y: i32, m: u32, d: u32) -> bool {
+    let idx = y - first_year;
+    0 <= idx && (idx as usize) < N && bits[idx as usize][(m - 1) as usize] & bit(d) != 0
+}
+
+fn any_ymd(lo: i32, hi: i32) -> (i32, u32, u32, NaiveDate) {
+    let y: i32 = kani::any();
+    kani::assume(lo <= y && y <= hi);
+    let m: u32 = kani::any();
+    let d: u32 = kani::any();
+    kani::assume(1 <= m && m <= 12 && 1 <= d && d <= 31);
+    let date = NaiveDate::from_ymd_opt(y, m, d);
+    kani::assume(date.is_some());
+    (y, m, d, date.unwrap())
+}
+
+/// contains / count / first_after on every stored state of 3 years, query date in first_year-2 ..= first_year+4.
+#[kani::proof]
+#[kani::unwind(40)]
+fn c15_t_calendar_queries_any_state() {
+    let (cal, fy, bits) = any_calendar();
+    let (qy, qm, qd, q) = any_ymd(fy - 2, fy + 4);
+    assert_eq!(cal.contains(q), model_contains(fy, &bits, qy, qm, qd));
+    let mut total = 0u32;
+    let mut y = 0;
+    while y < N {
+        let mut m = 0;
+        while m < 12 {
+            total += bits[y][m].count_ones();
+            m += 1;
+        }
+        y += 1;
+    }
+    assert_eq!(cal.count(), total);
+    // first_after: least member strictly greater than q (scan the model backwards)
+    let mut want: Option<(i32, u32, u32)> = None;
+    let mut y = N;
+    while y > 0 {
+        y -= 1;
+        let year = fy + y as i32;
+        let mut m = 12;
+        while m > 0 {
+            m -= 1;
+            let month = m as u32 + 1;
+            let b = bits[y][m];
+            let cand = if year > qy || (year == qy && month > qm) {
+                b
+            } else if year == qy && month == qm && qd < 31 {
+                b & !((1u32 << qd) - 1)
+            } else {
+                0
+            };
+            if cand != 0 {
+                want = Some((year, month, cand.trailing_zeros() + 1));
+            }
+        }
+    }
+    // only existing dates can have been inserted
+    let got = cal.first_after(q);
+    match want {
+        Some((y, m, d)) => {
+            if let Some(w) = NaiveDate::from_ymd_opt(y, m, d) {
+                assert_eq!(got, Some(w));
+            }
+        }
+        None => assert_eq!(got, None),
+    }
+    kani::cover!(want.is_some() && want.unwrap().0 > qy + 1, "first_after skips an empty year");
+    kani::cover!(qy < fy && want.is_some(), "query before the window");
+    std::mem::forget(cal);
+}
+
+/// One insert from every stored state of 3 years, inserted year in first_year-2 ..= first_year+4:
+/// the return value tells whether the date was new and afterwards the calendar holds exactly the
+/// old members and the new date (window growth in both directions).
+#[kani::proof]
+#[kani::unwind(40)]
+fn c15_t_calendar_insert_any_state() {
+    let (mut cal, fy, bits) = any_calendar();
+    let (iy, im, id, ins) = any_ymd(fy - 2, fy + 4);
+    let (qy, qm, qd, q) = any_ymd(fy - 3, fy + 5);
+    let was = model_contains(fy, &bits, iy, im, id);
+    assert_eq!(cal.insert(ins), !was);
+    let want = model_contains(fy, &bits, qy, qm, qd) || (qy == iy && qm == im && qd == id);
+    assert_eq!(cal.contains(q), want);
+    kani::cover!(iy < fy, "growth towards earlier years");
+    kani::cover!(iy >= fy + N as i32, "growth towards later years");
+    kani::cover!(was, "duplicate insertion");
+    std::mem::forget(cal);
+}
